@@ -28,3 +28,9 @@ package v1
 //@   // C17: the lookup runs under the block relay's read lock, concurrently with other lookups of the same configuration:
 //@   // it writes nothing that existed before
 //@   modifies nothing
+
+//@ // C16: the JSON methods are called by encoding/json and by blockrelay.UnmarshalJSON with an allocated value
+//@ func (*ExecutionConfig).MarshalJSON
+//@   requires e != nil
+//@ func (*ExecutionConfig).UnmarshalJSON
+//@   requires e != nil
